@@ -231,6 +231,11 @@ impl ControlFlowGraph {
                     continue;
                 }
 
+                // a block looping back to itself cannot be merged into itself
+                if successor == block.index() {
+                    continue;
+                }
+
                 // If this successor is already being merged, skip it
                 if blocks_being_merged.contains(&successor) {
                     continue;
